@@ -33,7 +33,7 @@ def _data(n):
     return X, y, sf
 
 
-def _make(c, log, rec=True):
+def _make(c, log, rec=True, shuffle=False):
     import torch
     from fairlearn.adversarial import AdversarialFairnessRegressor
     from fairlearn.adversarial._pytorch_engine import PytorchEngine
@@ -52,7 +52,7 @@ def _make(c, log, rec=True):
             return stop
         cbs.append(cb)
     est = AdversarialFairnessRegressor(backend=Rec, predictor_model=[3, "relu"], adversary_model=[2, "sigmoid"], predictor_optimizer="SGD", adversary_optimizer="SGD",
-                                       learning_rate=0.1, alpha=0.7, epochs=c["ep"], batch_size=c["bs"], callbacks=cbs if rec else None, shuffle=False, random_state=5)
+                                       learning_rate=0.1, alpha=0.7, epochs=c["ep"], batch_size=c["bs"], callbacks=cbs if rec else None, shuffle=shuffle, random_state=5)
     est.max_iter = c["mi"]
     return est
 
@@ -121,7 +121,27 @@ def _replay(ob):
 def _trace(c):
     try:
         events, n_iter, same = run_cfg(c)
-        return {"cfg": c, "events": [{k: v for k, v in e.items() if k != "contig"} for e in events], "same": same, "contig": all(e.get("contig", True) for e in events)}
+        return {"cfg": c, "shuffle": False, "events": [{k: v for k, v in e.items() if k != "contig"} for e in events], "same": same, "contig": all(e.get("contig", True) for e in events)}
+    except Exception as e:
+        return {"cfg": c, "error": repr(e)}
+
+
+def _trace_shuffled(c):
+    """extension beyond C17 (refinement tier): shuffle=True - every epoch uses every row exactly once"""
+    try:
+        log = []
+        X, y, sf = _data(c["n"])
+        est = _make(c, log, shuffle=True)
+        est.fit(X, y, sensitive_features=sf)
+        events, k = [], 0
+        for e in log:
+            if e["ev"] == "step":
+                k += 1
+                events.append({"ev": "step", "ids": e["ids"], "n_iter": k, "lo": 0, "hi": 0})
+            else:
+                events.append(e)
+        events.append({"ev": "end", "n_iter": int(est.n_iter_)})
+        return {"cfg": c, "shuffle": True, "events": events}
     except Exception as e:
         return {"cfg": c, "error": repr(e)}
 
@@ -213,7 +233,15 @@ def run(ck):
     for r in recs:
         if "error" in r:
             ck.violation({"api": "fit", "kind": "exception", "trace": True}, f"fit raised {r['error']}", {"cfg": r["cfg"]})
-    acc, diags = ck.validate_traces("AdvTrace", [{"cfg": t["cfg"], "events": t["events"]} for t in traces], cfg(0, 0, 0, 0, 0, 3, False, trace=True), "adversarial fit traces", shards=8)
+    acc, diags = ck.validate_traces("AdvTrace", [{"cfg": t["cfg"], "shuffle": False, "events": t["events"]} for t in traces], cfg(0, 0, 0, 0, 0, 3, False, trace=True), "adversarial fit traces", shards=8)
+    # extension (refinement tier): shuffle = True
+    srecs = [r for r in pmap(_trace_shuffled, tcfgs[: (40 if ck.quick else 300)], chunksize=4) if "events" in r]
+    sacc, _ = ck.validate_traces("AdvTrace", [{"cfg": t["cfg"], "shuffle": True, "events": t["events"]} for t in srecs], cfg(0, 0, 0, 0, 0, 3, False, trace=True),
+                                 "extension: shuffled fit traces", shards=4, diag=False)
+    for t, ok in zip(srecs, sacc):
+        if not ok:
+            ck.note_drift(f"[extension AdvTrace shuffle=True] trace rejected for cfg {t['cfg']}: an epoch does not use every row exactly once / schedule differs")
+    ck.extra["extension_shuffled_traces"] = len(srecs)
     for i, ok in enumerate(acc):
         ck.impl += 1
         if not ok:
